@@ -149,6 +149,9 @@ func printOblResult(o *OblResult, verbose bool, dump string) {
 	fmt.Printf("    %-11s %s (%d VCs, %s, %.2fs) %s %s\n", strings.ToUpper(o.Status), o.Name, o.VCs, o.Solver, o.Time, o.Pos, o.Desc)
 	if o.Status != "discharged" {
 		fmt.Printf("        solver said: %s (%s)\n", o.FailRes.Status, o.FailRes.Solver)
+		for _, f := range o.FailedVCs {
+			fmt.Printf("          %s\n", f)
+		}
 	}
 	if dump != "" && strings.Contains(o.Name, dump) && o.Failing != nil {
 		fmt.Println("---- failing VC ----")
